@@ -903,20 +903,30 @@ theorem prevptr_new_source_eq_model (sortEv : List Ev → List Ev) (bsM : List M
     Gen.SrcSdpkpp.prevPtrNew sortEv bsM bsN sc x y id ge = Res.ok (toT (PrevPtr.new sc x y id ge)) :=
   GenSrcSdpkpp.prevPtrNew_eq_model sortEv bsM bsN sc x y id ge h hxy
 
-/-- `sdpkpp` as written in the source = the mirror model **given that its sweep loop is** (`hsw`).  Partial: what is
-missing is exactly `hsw` — that the translated loop body `sdpkpp_for3` (checked `u32` subtractions `cur_x - prev_x`, products
-`gap * _gap_extend`, `d * gap_extend`, `k * match_score`) follows `Model.Sdpkpp.stepEv` event by event; it needs a stronger
-sweep invariant and size hypotheses on the scoring parameters (docs/notes/GEN.md, "Dialect sp", Not done).  Proved here:
-the gap-parameter assertion, `(-gap_open) as u32`, the sortedness assertion, event list, sort (by contract),
-`MaxBitTree::new`, `dp.resize`, traceback, result — no panic outside the sweep. -/
-theorem sdpkpp_source_eq_model_partial (sortEv : List Ev → List Ev) (bsM : List M → M → Except Nat Nat) (bsN : List Nat → Nat → Except Nat Nat)
-    (hsort : SortOk sortEv) (ms : List M) (k msc gO gE : Nat) (hk : 0 < k) (hs : ms.Pairwise lexLt) (hB : Bnd ms k)
-    (hgo : gO < 2 ^ 31) (hge : gE < 2 ^ 31)
-    (hsw : List.foldlM (Gen.SrcSdpkpp.sdpkpp_for3 sortEv bsM bsN ms k msc gO gE) (initT ms k) (sortedEvents ms k)
-      = Res.ok (finalT ms k msc gO gE)) :
+/-- **`sdpkpp` as written in the source = the mirror model** (path, score, whole `dp_vector`; gap parameters given by their
+magnitudes: `gap_open = -gO`, `gap_extend = -gE`), for every strictly sorted match list, `k ≥ 1` and sizes `BndS` (those of
+`lcskpp`; `gO, gE < 2³¹`; `len·k·match_score + 2·n·gE + gO < 2³²` and `2·n < 2³²` with `n = max (x + k, y + k)`): no panic —
+the assertion on the gap parameters holds, `cur_x - prev_x` / `cur_y - prev_y` do not underflow, no `u32` sum or product
+(`k * match_score`, `gap * _gap_extend`, `d * gap_extend` in `PrevPtr::new`) overflows — and the traceback ends by itself.
+Outside `BndS` the Rust code *can* overflow (see docs/notes/C19.md). -/
+theorem sdpkpp_source_eq_model (sortEv : List Ev → List Ev) (bsM : List M → M → Except Nat Nat) (bsN : List Nat → Nat → Except Nat Nat)
+    (hsort : SortOk sortEv) (hbs : BSearchOk bsM) (ms : List M) (k msc gO gE : Nat) (hk : 0 < k) (hs : ms.Pairwise lexLt)
+    (hS : BndS ms k msc gO gE) :
     ∃ r, sdpkpp ms k msc gO gE = .ok r ∧
       Gen.SrcSdpkpp.sdpkpp sortEv bsM bsN ms k msc (-(gO : Int)) (-(gE : Int)) = Res.ok (r.path, r.score, r.dp) :=
-  GenSrcSdpkpp.sdpkpp_eq_model_of_sweep sortEv bsM bsN hsort ms k msc gO gE hk hs hB hgo hge hsw
+  GenSrcSdpkpp.sdpkpp_eq_model sortEv bsM bsN hsort hbs ms k msc gO gE hk hs hS
+
+/-- **the translated `sdpkpp` returns a valid chain** (non-empty when there are matches, indices ascending) -/
+theorem sdpkpp_source_valid (sortEv : List Ev → List Ev) (bsM : List M → M → Except Nat Nat) (bsN : List Nat → Nat → Except Nat Nat)
+    (hsort : SortOk sortEv) (hbs : BSearchOk bsM) (ms : List M) (k msc gO gE : Nat) (hk : 0 < k) (hs : ms.Pairwise lexLt)
+    (hS : BndS ms k msc gO gE) :
+    ∃ path sc dp, Gen.SrcSdpkpp.sdpkpp sortEv bsM bsN ms k msc (-(gO : Int)) (-(gE : Int)) = Res.ok (path, sc, dp) ∧
+      validChain ms k path = true ∧ (ms ≠ [] → path ≠ []) ∧ path.Pairwise (· < ·) := by
+  obtain ⟨r, h1, h2⟩ := GenSrcSdpkpp.sdpkpp_eq_model sortEv bsM bsN hsort hbs ms k msc gO gE hk hs hS
+  obtain ⟨r', h1', hv, hne, hasc⟩ := sdpkpp_model_ok msc gO gE hk hs
+  have : r' = r := by rw [h1] at h1'; cases h1'; rfl
+  subst this
+  exact ⟨_, _, _, h2, hv, hne, hasc⟩
 
 theorem ascending_length_le (n : Nat) : ∀ (l : List Nat) (b : Nat), l.Pairwise (· < ·) → (∀ x ∈ l, b ≤ x ∧ x < n) → b ≤ n →
     b + l.length ≤ n := by
@@ -930,23 +940,20 @@ theorem ascending_length_le (n : Nat) : ∀ (l : List Nat) (b : Nat), l.Pairwise
     have := ih (a + 1) hp.2 (fun x hx => ⟨hp.1 x hx, (hb x (by simp [hx])).2⟩) (by omega)
     simp only [List.length_cons]; omega
 
-/-- **the translated union returns a valid chain** — through the translated `lcskpp` (proved equal to its model) and the
-translated `sdpkpp`; partial for the same reason as `sdpkpp_source_eq_model_partial`: the hypothesis `hsw` on the sweep loop
-of `sdpkpp` -/
-theorem union_source_valid_partial (sortEv : List Ev → List Ev) (bsM : List M → M → Except Nat Nat) (bsN : List Nat → Nat → Except Nat Nat)
+/-- **the translated `sdpkpp_union_lcskpp_path` returns a valid chain** — through the translated `lcskpp` and the translated
+`sdpkpp` (both proved equal to their models) and the splice; no panic -/
+theorem union_source_valid (sortEv : List Ev → List Ev) (bsM : List M → M → Except Nat Nat) (bsN : List Nat → Nat → Except Nat Nat)
     (hsort : SortOk sortEv) (hbsM : BSearchOk bsM) (hbsN : BSearchOk bsN) (ms : List M) (k msc gO gE : Nat) (hk : 0 < k)
-    (hs : ms.Pairwise lexLt) (hB : Bnd ms k) (hgo : gO < 2 ^ 31) (hge : gE < 2 ^ 31)
-    (hsw : List.foldlM (Gen.SrcSdpkpp.sdpkpp_for3 sortEv bsM bsN ms k msc gO gE) (initT ms k) (sortedEvents ms k)
-      = Res.ok (finalT ms k msc gO gE)) :
+    (hs : ms.Pairwise lexLt) (hS : BndS ms k msc gO gE) :
     ∃ u, Gen.SrcSdpkpp.unionPath sortEv bsM bsN ms k msc (-(gO : Int)) (-(gE : Int)) = Res.ok u ∧ validChain ms k u = true := by
   by_cases hne : ms = []
   · subst hne
     exact ⟨[], by simp [Gen.SrcSdpkpp.unionPath], by simp [validChain, pathMatches, chainB]⟩
-  · obtain ⟨rl, hl1, hl2⟩ := GenSrcLcskpp.lcskpp_eq_model sortEv bsM hsort hbsM ms k hk hs hB
+  · obtain ⟨rl, hl1, hl2⟩ := GenSrcLcskpp.lcskpp_eq_model sortEv bsM hsort hbsM ms k hk hs hS.base
     obtain ⟨rl', hl1', _, hlv, _, _, hlasc⟩ := lcskpp_model_ok hk hs
     have e1 : rl' = rl := by rw [hl1] at hl1'; cases hl1'; rfl
     subst e1
-    obtain ⟨rs, hs1, hs2⟩ := GenSrcSdpkpp.sdpkpp_eq_model_of_sweep sortEv bsM bsN hsort ms k msc gO gE hk hs hB hgo hge hsw
+    obtain ⟨rs, hs1, hs2⟩ := GenSrcSdpkpp.sdpkpp_eq_model sortEv bsM bsN hsort hbsM ms k msc gO gE hk hs hS
     obtain ⟨rs', hs1', hsv, hsne, _⟩ := sdpkpp_model_ok msc gO gE hk hs
     have e2 : rs' = rs := by rw [hs1] at hs1'; cases hs1'; rfl
     subst e2
@@ -965,10 +972,18 @@ theorem union_source_valid_partial (sortEv : List Ev → List Ev) (bsM : List M 
         have := ((validChain_iff' ms k rl'.path).mp hlv).1 x hx
         omega
       have := ascending_length_le ms.length rl'.path 0 hlasc hall (by omega)
-      have := hB.len
+      have := hS.base.len
       omega
     exact ⟨_, GenSrcSdpkpp.unionPath_eq_splice sortEv bsM bsN hbsN ms k msc _ _ hne hl2 hs2 hlasc hf hla hlen,
       union_valid ms k rl'.path rs'.path hlv hsv first last hf hla⟩
+
+example : ∃ u, Gen.SrcSdpkpp.unionPath stdSortEv stdBsM stdBsN [(0, 0), (1, 1), (2, 2), (5, 5), (6, 9)] 3 1 (-2) (-1) = Res.ok u ∧
+    validChain [(0, 0), (1, 1), (2, 2), (5, 5), (6, 9)] 3 u = true := by
+  have hn : nFrom 3 0 [(0, 0), (1, 1), (2, 2), (5, 5), (6, 9)] = 12 := by decide
+  exact union_source_valid stdSortEv stdBsM stdBsN stdSortEv_ok stdBsM_ok stdBsN_ok [(0, 0), (1, 1), (2, 2), (5, 5), (6, 9)] 3 1 2 1
+    (by decide) (by simp [lexLt])
+    ⟨⟨by decide, by intro m hm; simp at hm; rcases hm with rfl | rfl | rfl | rfl | rfl <;> decide⟩, by decide, by decide,
+      by rw [hn]; decide, by rw [hn]; decide⟩
 
 example : Gen.SrcSdpkpp.prevPtrNew stdSortEv stdBsM (fun _ _ => .error 0) 7 3 4 2 5 = Res.ok (42, 7, 7, 2, 3, 4) := by decide
 
